@@ -14,6 +14,26 @@ pub struct Case {
     pub kind: Kind,
     pub v: Inst,
     pub off: i32,
+    /// != 0: Time / DateTime values carry `Offset::Local` under an injected zone whose offset at this
+    /// pinned Unix time is `off` (Display is judged)
+    #[serde(default)]
+    pub local_now: i64,
+}
+
+/// A `fmt::Write` sink that itself prints a Date, a Time and a DateTime every time it is written
+/// to: `Display` is re-entered while an outer `Display` call of the same thread is still running
+/// (a writer that timestamps its output does exactly that).
+struct ReentrantSink {
+    out: String,
+    inner: Vec<String>,
+}
+
+impl std::fmt::Write for ReentrantSink {
+    fn write_str(&mut self, s: &str) -> std::fmt::Result {
+        self.inner.push(format!("{} {} {}", mk_date(738_000), mk_time(45_296_000_000_000), mk_dt(738_000 * tl::DAY_NS + 45_296_000_000_000)));
+        self.out.push_str(s);
+        Ok(())
+    }
 }
 
 fn pat(kind: Kind, sep: char) -> String {
@@ -32,13 +52,13 @@ impl Prop for TextForms {
     fn gen(u: &mut Unstructured<'_>) -> arbitrary::Result<Case> {
         let kind = *u.choose(&[Kind::Date, Kind::Time, Kind::DateTime, Kind::DateTime])?;
         Ok(match kind {
-            Kind::Date => Case { kind, v: Inst { day: gen::day(u)?, ns: 0 }, off: 0 },
-            Kind::Time => Case { kind, v: Inst { day: 0, ns: gen::day_ns(u)? }, off: gen::offset(u)? },
+            Kind::Date => Case { kind, v: Inst { day: gen::day(u)?, ns: 0 }, off: 0, local_now: 0 },
+            Kind::Time => Case { kind, v: Inst { day: 0, ns: gen::day_ns(u)? }, off: gen::offset(u)?, local_now: if u.coin(1, 6)? { u.range_i64(-1_900_000_000, 2_100_000_000)? } else { 0 } },
             Kind::DateTime => {
                 if u.coin(3, 4)? {
-                    Case { kind, v: Inst::from_i(gen::instant_y1_9999(u)?), off: gen::offset_minutes(u)? }
+                    Case { kind, v: Inst::from_i(gen::instant_y1_9999(u)?), off: gen::offset_minutes(u)?, local_now: if u.coin(1, 6)? { u.range_i64(-1_900_000_000, 2_100_000_000)? } else { 0 } }
                 } else {
-                    Case { kind, v: gen::inst(u, 1)?, off: gen::offset(u)? }
+                    Case { kind, v: gen::inst(u, 1)?, off: gen::offset(u)?, local_now: 0 }
                 }
             }
         })
@@ -143,6 +163,49 @@ impl Prop for TextForms {
             Ok(s) => {
                 if s != want_display {
                     return fail("c20.display", format!("{:?} {} [{}] to_string() = {:?}", c.kind, fmt_instant(c.v.i()), c.off, want_display), format!("{:?}", s));
+                }
+            }
+        }
+        // the same value carrying its offset as Offset::Local (zone offset `off` at the pinned clock,
+        // another one at most other times) prints the same text
+        if c.kind != Kind::Date && c.local_now != 0 && local_now_ok(c.local_now) && (c.kind == Kind::Time || (c.v.day > cal::MIN_DAY + 3 && c.v.day < cal::MAX_DAY - 3)) {
+            cx.nt("offset_carried_as_Offset::Local");
+            pin_local(c.off, c.local_now);
+            let r = catch(|| match c.kind {
+                Kind::Time => mk_time(c.v.ns as u64).set_offset(Offset::Local).to_string(),
+                _ => mk_dt(c.v.i()).set_offset(Offset::Local).to_string(),
+            });
+            unpin_local();
+            match r {
+                Err(p) => return fail("c20.display_panic", "to_string of a value carrying Offset::Local returns", p.short()),
+                Ok(s) => {
+                    if s != want_display {
+                        return fail("c20.display_local", format!("{:?} {} carrying Offset::Local (zone offset {} at the pinned clock {}) to_string() = {:?}", c.kind, fmt_instant(c.v.i()), c.off, c.local_now, want_display), format!("{:?}", s));
+                    }
+                }
+            }
+        }
+        // Display into a sink that prints other values itself while it is being written to
+        if interfere {
+            cx.label("display_into_a_sink_that_displays_values_itself");
+            let r = catch(|| {
+                use std::fmt::Write;
+                let mut sink = ReentrantSink { out: String::new(), inner: Vec::new() };
+                let ok = match c.kind {
+                    Kind::Date => write!(sink, "{}", mk_date(c.v.day)),
+                    Kind::Time => write!(sink, "{}", mk_time(c.v.ns as u64).set_offset(Offset::Fixed(c.off))),
+                    Kind::DateTime => write!(sink, "{}", mk_dt_off_any(c.v.i(), c.off)),
+                };
+                (ok.is_ok(), sink.out, sink.inner)
+            });
+            match r {
+                Err(p) => return fail("c20.display_panic", "Display into a sink that displays other values while being written to returns", p.short()),
+                Ok((ok, out, inner)) => {
+                    let (y, m, d) = cal::ymd_from_days(738_000);
+                    let nested = format!("{:04}/{:02}/{:02} 12:34:56 {:04}/{:02}/{:02} 12:34:56", y, m, d, y, m, d);
+                    if !ok || out != want_display || inner.iter().any(|x| *x != nested) {
+                        return fail("c20.display_reentrant", format!("Display into a re-entrant sink writes {:?} (and the nested values print {:?})", want_display, nested), format!("ok={} {:?} nested {:?}", ok, out, inner.first()));
+                    }
                 }
             }
         }
